@@ -208,4 +208,17 @@ var specs = []CheckSpec{
 		Assumptions: append([]string{"the reference evaluator over line selectors (40 lines, in the harness) states the property: first failing line decides, stop = pass, skip = skipped unless a line already failed, [cond] false lines have no effect, ContinueOnError runs every line and still fails"}, commonAssumptions...),
 		Outside:     []string{"exec, background commands (&), kill, wait on real processes, grep/stdout/stderr matching on symbolic text, symlink, unix2dos, cmpenv (C16 covers cmpenv under UpdateScripts), stdin/ttyin", "parallel subtests (C04)", "the standalone command's exit mapping beyond the recording T (see cmd/testscript harness if registered)", "scripts longer than the bound"},
 	},
+	{
+		ID: "C16", Pkg: "testscript",
+		Harnesses: []HarnessSpec{
+			{Fn: "VerifC16Update", Quick: map[string]int{"G": 2, "A": 2, "C": 1}, Thorough: map[string]int{"G": 2, "A": 3, "C": 2}, Witness: []string{"update", "no-update", "quoted-update", "rerun", "actual-has-marker"}},
+		},
+		Bounds: map[string]string{
+			"quick":    "script archive with two golden entries of <= 2 symbolic bytes (+newline, or empty), one actual text on stdout (<= 2 arbitrary bytes, or a text containing a marker line with a symbolic byte), one comparison line: cmp / ! cmp / cmpenv against entry 0, entry 1 or a file outside the archive; UpdateScripts symbolic; second run of the real code on the rewritten script",
+			"thorough": "actual <= 3 bytes; two comparison lines",
+		},
+		Stubs: []string{"as C01"},
+		Assumptions: append([]string{"entry names are unique (duplicates are a documented later-wins case)"}, commonAssumptions...),
+		Outside:     []string{"actual content from stderr or files (same code path: ts.ReadFile)", "more than two golden entries / comparison lines", "scripts whose golden names need expansion"},
+	},
 }
